@@ -24,3 +24,7 @@ func hookRetainedH264Payloader(p *codecs.H264Payloader) ([][]byte, bool) {
 }
 func hookRetainedH264Packet(p *codecs.H264Packet) ([][]byte, bool) { return p.VerifRetained(), true }
 func hookRetainedAV1(p *codecs.AV1Depacketizer) ([][]byte, bool)   { return p.VerifRetained(), true }
+
+func hookSetSequencerState(s rtp.Sequencer, last uint16, roll uint64) bool {
+	return rtp.VerifSetSequencerState(s, last, roll)
+}
